@@ -1048,6 +1048,10 @@ type MacroNode struct {
 	defaults map[string]Node
 	body     []Node
 	line     int
+
+	// The macros written at the top level of the same template (this one included),
+	// set once by the parser and read-only afterwards
+	siblings map[string]*MacroNode
 }
 
 func (n *MacroNode) Type() NodeType {
@@ -1198,6 +1202,13 @@ func (n *MacroNode) CallMacro(w io.Writer, ctx *RenderContext, args ...interface
 
 	// Ensure context is released even in error paths
 	defer macroCtx.Release()
+
+	// The body sees the macros of the template it was written in, by name and
+	// through _self, wherever the macro is called from (an importing template does
+	// not have them in its own scope)
+	for name, sibling := range n.siblings {
+		macroCtx.SetMacro(name, sibling)
+	}
 
 	// Set the parameters
 	for i, param := range n.params {
